@@ -65,7 +65,21 @@ def make_kwdicts(ex, st):
     get = z3.Function('kw_get', z3.IntSort(), z3.StringSort(), ex.W.TT)
 
     def at(ex_, s, k):
-        return [(s, Opaque('kwdict', {'idx': ex_.z_int(k), 'has': has, 'get': get}))]
+        idx = ex_.z_int(k)
+
+        def d_contains(ex2, d, item, s2):
+            lib('dict.__contains__/__getitem__ (uninterpreted membership and lookup per dictionary)')
+            return has(idx, ex2.z_str(item))
+
+        def d_index(ex2, d, item, s2):
+            res = []
+            for s3, b in ex2.decide(s2, has(idx, ex2.z_str(item))):
+                if b:
+                    res.append((s3, STy(get(idx, ex2.z_str(item)))))
+                else:
+                    ex2.raise_on(s3, 'KeyError', 'kwdict')
+            return res
+        return [(s, Opaque('kwdict', {'idx': idx, 'contains': d_contains, 'index': d_index}))]
     return ex.new_obj(st, 'aseq', {'N': SInt(n), 'AT': at, 'HAS': has, 'GET': get})
 
 
@@ -132,3 +146,36 @@ def _mk_iter(ex, st):
 class tokenize_c:
     """dataflow: tokenize(sql, encoding) returns get_default_instance().get_tokens(sql, encoding) unchanged"""
     params = {'sql': 'str', 'encoding': lambda ex, st: Opaque('any-encoding')}
+
+
+# ----------------------------------------------------------------------------- is_keyword, full contract (C14)
+
+def _kw_ghosts(ex, st):
+    """ghost FIRST = index of the first dictionary listing upper(value) (N if none): a definitional extension;
+    the three defining clauses are instantiated where the proof needs them (loop lemmas)"""
+    kws = st.objs[st.env['self'].oid]['_keywords']
+    o = st.objs[kws.oid]
+    has, get, n = o['HAS'], o['GET'], o['N']
+    val = ex.W.upper(st.env['value'].z)
+    first = z3.Function('firsthit', z3.StringSort(), z3.IntSort())
+    st.ghost['FIRST'] = SInt(first(val))
+    st.ghost['NDICT'] = n
+    st.ghost['HAS'] = Func('spec.HAS', model=lambda ex_, s_, a, k, s: [(s, SBool(has(ex_.z_int(a[0]), ex_.z_str(a[1]))))])
+    st.ghost['GET'] = Func('spec.GET', model=lambda ex_, s_, a, k, s: [(s, STy(get(ex_.z_int(a[0]), ex_.z_str(a[1]))))])
+    # clause (A) 0 <= FIRST <= N and clause (B) FIRST < N => has(FIRST, val): closed instances
+    st.assume(z3.And(first(val) >= 0, first(val) <= n.z))
+    st.assume(z3.Implies(first(val) < n.z, has(first(val), val)))
+
+
+@contract('sqlparse.lexer.Lexer.is_keyword', case='full')
+class is_keyword_full:
+    params = {'self': make_lexer(True), 'value': 'str'}
+    ghost_init = staticmethod(_kw_ghosts)
+    requires = []
+    loops = {'0': {'inv': ['IT0.K <= FIRST', 'IT0.N == NDICT'],
+                   # clause (C) of the definition of FIRST instantiated at the loop index:
+                   'lemmas': ['(not HAS(IT0.K, value.upper())) if (0 <= IT0.K and IT0.K < FIRST) else True']}}
+    ensures = ['result[1] == value',
+               'result[0] == (GET(FIRST, value.upper()) if FIRST < NDICT else tokens.Name)']
+    raises = []
+    serves = ['C14']
